@@ -202,13 +202,21 @@ def main():
             ops = gen_history(rng, t, enc, rng.randint(3, 9 if enc != "sie" else 12))
 
             d = os.path.join(root, "h%d" % len(cases)); os.mkdir(d)
+            # the field comes from the format file, or is created through the handle that then writes it:
+            # gd_add_spec (a line of text), gd_add_raw, or gd_add with an entry structure
+            how = rng.choice(["format", "format", "add_spec", "add_raw", "add_entry"])
             with open(os.path.join(d, "format"), "w") as fh:
-                fh.write("/ENCODING %s\n%s\n/FRAMEOFFSET %d\na RAW %s %d\n" % (enc, gdlib.sex_directive(sex), off, NAMES[t], spf))
+                fh.write("/ENCODING %s\n%s\n/FRAMEOFFSET %d\n%s" % (enc, gdlib.sex_directive(sex), off,
+                                                                      "a RAW %s %d\n" % (NAMES[t], spf) if how == "format" else ""))
             zero = tuple([0] * NCOMP[t])
             a = []
             sc = ["open %s rw" % d]
             expect = []          # per script line: None or ("put", n) / ("get", comps)
             expect.append(("open",))
+            if how == "add_spec":
+                sc.append("addspec 0 a RAW %s %d" % (NAMES[t], spf)); expect.append(("rc0",))
+            elif how in ("add_raw", "add_entry"):
+                sc.append("%s a %d %d 0" % (how, t, spf)); expect.append(("rc0",))
             ml = []
             for op in ops:
                 if op[0] == "P":
@@ -507,6 +515,116 @@ def main():
                           {"kind": "impl-vs-spec", "format": open(os.path.join(d, "format")).read(), "script": sc[13:17], "got": r[16], "want": "get 4 0 11 12 3 4"})
     else:
         derived_bad.append(("harness", "derived-write script failed: " + out[-300:]))
+    # ---------------------------------------------------------------- every caller type x field type, boundary values
+    # (type limits, 2^31, 2^32, 2^63 neighbourhoods as far as the caller type holds them): what is written is "the value
+    # converted to the field's type" (the C conversion; cases that are undefined in C are left out)
+    import math
+
+    def from_pattern(tt, comps):
+        """value of one sample: int, float or complex"""
+        if tt < 8:
+            return gdlib.int_value(tt, comps[0])
+        if tt < 10:
+            return gdlib.float_value(tt, comps[0])
+        return complex(gdlib.float_value(tt, comps[0]), gdlib.float_value(tt, comps[1]))
+
+    def to_pattern(tt, v):
+        """patterns of value v converted to type tt as C does, None when the conversion is undefined"""
+        w_ = CSIZE[tt]
+        if tt < 8:
+            if isinstance(v, complex):
+                v = v.real
+            if isinstance(v, float):
+                if math.isnan(v) or math.isinf(v):
+                    return None
+                v = int(v)          # truncation
+                lo_, hi_ = (-(1 << (8 * w_ - 1)), (1 << (8 * w_ - 1)) - 1) if gdlib.ISSIGNED[tt] else (0, (1 << 8 * w_) - 1)
+                if not lo_ <= v <= hi_:
+                    return None     # out of range float -> integer: undefined behaviour in C
+            return [v & ((1 << 8 * w_) - 1)]
+
+        def fbits(x):
+            x = float(x) if not isinstance(x, float) else x
+            if w_ == 4:
+                try:
+                    return struct.unpack("<I", struct.pack("<f", x))[0]
+                except OverflowError:
+                    return struct.unpack("<I", struct.pack("<f", math.copysign(float("inf"), x)))[0]
+            return struct.unpack("<Q", struct.pack("<d", x))[0]
+        if tt < 10:
+            if isinstance(v, complex):
+                v = v.real
+            return [fbits(v)]
+        if isinstance(v, complex):
+            return [fbits(v.real), fbits(v.imag)]
+        return [fbits(v), fbits(0.0)]
+
+    def boundary(tt):
+        """boundary samples of caller type tt, as component patterns"""
+        w_ = CSIZE[tt]; bits_ = 8 * w_; mask_ = (1 << bits_) - 1
+        if tt < 8:
+            vals = [0, 1, mask_, mask_ >> 1, (mask_ >> 1) + 1, 0x7f, 0x80, 0xff, 0x7fff, 0x8000, 0xffff, (1 << 31) - 1, 1 << 31, (1 << 31) + 1,
+                    (1 << 32) - 1, 1 << 32, (1 << 32) + 5, (1 << 63) - 1, 1 << 63, (1 << 53) + 1, 3000000000, rng.getrandbits(bits_)]
+            return [[v & mask_] for v in dict.fromkeys(v & mask_ for v in vals)]
+        fv = [0.0, -0.0, 1.0, -1.0, 0.5, -2.5, 127.0, 128.0, 255.0, 256.0, -128.0, -129.0, 32767.0, 32768.0, 65535.0, 65536.0, 2147483647.0, 2147483648.0,
+              -2147483648.0, 4294967295.0, 4294967296.0, 3e9, 9007199254740993.0, 1e-3, 16777217.0, 1e19, -1e19, 9.2e18, 1.8e19]
+        pats = []
+        for x in fv:
+            z = struct.unpack("<I", struct.pack("<f", x))[0] if w_ == 4 else struct.unpack("<Q", struct.pack("<d", x))[0]
+            pats.append([z] if tt < 10 else [z, struct.unpack("<I", struct.pack("<f", 1.5))[0] if w_ == 4 else struct.unpack("<Q", struct.pack("<d", 1.5))[0]])
+        return pats
+    convbad = {}
+    cvn = 0
+    for tc_ in range(12):
+        for tf_ in range(12):
+            samples_ = []
+            for pat in boundary(tc_):
+                out_ = to_pattern(tf_, from_pattern(tc_, pat))
+                if out_ is not None:
+                    samples_.append((pat, out_))
+            if not samples_:
+                continue
+            enc_ = "none" if (tc_ + tf_) % 3 else rng.choice(["gzip", "sie", "lzma", "bzip2"])
+            sex_ = rng.choice(gdlib.sexes_for(tf_))
+            dcv = os.path.join(root, "cv%d_%d" % (tc_, tf_)); os.mkdir(dcv)
+            open(os.path.join(dcv, "format"), "w").write("/ENCODING %s\n%s\na RAW %s 1\n" % (enc_, gdlib.sex_directive(sex_), NAMES[tf_]))
+            flat_in = [x for pat, _ in samples_ for x in pat]
+            flat_out = [x for _, o in samples_ for x in o]
+            sc_ = ["open %s rw" % dcv, "put a %d 0 0 %d %s" % (tc_, len(samples_), gdlib.hexs(flat_in)), "get a %d 0 0 %d" % (tf_, len(samples_) + 1),
+                   "close", "open %s ro" % dcv, "get a %d 0 0 %d" % (tf_, len(samples_) + 1), "close"]
+            rc_, out_ = vlib.sh([exe], inp=("\n".join(sc_) + "\n").encode(), timeout=60)
+            r_ = out_.strip().split("\n")
+            chk.cov["evaluations"] += 1; cvn += 1
+            g1 = gdlib.parse_get(r_[2]) if len(r_) > 2 else None
+            g2 = gdlib.parse_get(r_[5]) if len(r_) > 5 else None
+
+            def same(gl):
+                if gl is None or gl[1] != 0 or len(gl[2]) != len(flat_out):
+                    return None
+                for i_, (a_, b_) in enumerate(zip(gl[2], flat_out)):
+                    if a_ != b_:
+                        # NaNs are one class
+                        if ISFLOAT[tf_]:
+                            fa, fb = gdlib.float_value(tf_, a_), gdlib.float_value(tf_, b_)
+                            if math.isnan(fa) and math.isnan(fb):
+                                continue
+                        return i_
+                return -1
+            k1_, k2_ = same(g1), same(g2)
+            if rc_ != 0 or k1_ != -1 or k2_ != -1:
+                kk = k1_ if k1_ not in (-1, None) else k2_
+                ix = (kk // NCOMP[tf_]) if isinstance(kk, int) and kk >= 0 else None
+                convbad.setdefault("putdata/caller-type-conversion/%s->%s" % (NAMES[tc_], NAMES[tf_]), []).append(
+                    (sc_, "put of %s %s into a %s field reads back %s, the C conversion gives %s (same handle: %s | after reopen: %s)" % (
+                        NAMES[tc_], gdlib.hexs(samples_[ix][0]) if ix is not None else "?", NAMES[tf_],
+                        gdlib.hexs(g1[2][ix * NCOMP[tf_]:(ix + 1) * NCOMP[tf_]]) if (ix is not None and g1 and len(g1[2]) >= (ix + 1) * NCOMP[tf_]) else "?",
+                        gdlib.hexs(samples_[ix][1]) if ix is not None else "?", r_[2][:80] if len(r_) > 2 else out_[-80:], r_[5][:80] if len(r_) > 5 else "")))
+            else:
+                nontriv.add(("conv", tc_, tf_, tuple(flat_out)))
+    for key_, l_ in sorted(convbad.items()):
+        sc_, why_ = l_[0]
+        chk.violation(key_, why_, {"kind": "impl-vs-spec", "script": sc_, "why": why_})
+
     # generated MPLEX write-through: any pair of sample rates, any index contents; oracle = the read formula
     # (sample i of the data field changes iff index[floor(i*spf2/spf1)] == count value)
     nmp = 24 if not chk.thorough else 300
